@@ -12,6 +12,7 @@ extern crate rustc_abi;
 extern crate rustc_driver;
 extern crate rustc_hir;
 extern crate rustc_interface;
+extern crate rustc_lexer;
 extern crate rustc_middle;
 extern crate rustc_span;
 
